@@ -43,6 +43,7 @@ type caseDesc struct {
 	Policy string        `json:"policy"` // nil fixed zero error echo
 	TTL    uint32        `json:"ttl"`    // requested wait seconds
 	Attack attack        `json:"attack"`
+	Prior  bool          `json:"prior,omitempty"` // the genuine owner registered this GUID in an earlier session of the same server
 }
 
 func ownersFor(n int) []int {
@@ -294,6 +295,19 @@ func evalCase(d caseDesc) ev.Result {
 		}
 		return tok, n.Items[0].Bytes, nil
 	}
+	if d.Prior {
+		// an earlier, genuine registration of the same GUID (its blob is stored and unexpired
+		// when the request under test arrives)
+		tok0, nonce0, err := hello()
+		if err != nil {
+			return ev.Failf("hello", "%v", err)
+		}
+		sk0, rsa0 := signerKey(d.Cfg, b, "owner")
+		if _, _, _, _, err := send(rv.Handler, 22, tok0, ownerSign(d.Cfg, b.vbytes, 3600, nonce0, sk0, rsa0, "")); err != nil {
+			return ev.Failf("setup", "prior registration: %v", err)
+		}
+		policyCalls = 0
+	}
 	tok, nonce, err := hello()
 	if err != nil {
 		return ev.Failf("hello", "%v", err)
@@ -445,7 +459,7 @@ func evalCase(d caseDesc) ev.Result {
 	if a.Kind == "takeover" {
 		cls += fmt.Sprintf("/%s/%s", a.Signer, posClass(a.Entry%max(d.Chain, 1), d.Chain))
 	}
-	tag := fmt.Sprintf("%s/%s chain=%d policy=%s ttl=%d attack=%s", d.Cfg.Key, d.Cfg.Enc, d.Chain, d.Policy, d.TTL, cls)
+	tag := fmt.Sprintf("%s/%s chain=%d policy=%s ttl=%d prior=%v attack=%s", d.Cfg.Key, d.Cfg.Enc, d.Chain, d.Policy, d.TTL, d.Prior, cls)
 	shouldAccept := refOK && policyOK
 
 	if !accepted && setBlob != nil {
@@ -554,6 +568,7 @@ func genCase(t *rapid.T) caseDesc {
 		TTL:    rapid.SampledFrom([]uint32{0, 1, 2, 3600, 86400, 1<<31 - 1, 1<<32 - 1}).Draw(t, "ttl")}
 	kind := rapid.SampledFrom([]string{"none", "mutate", "mutate", "mutate", "signer", "signer", "replay", "zero-entries", "other-to1d", "hash", "no-hello", "graft", "graft", "takeover", "takeover"}).Draw(t, "kind")
 	d.Attack.Kind = kind
+	d.Prior = rapid.IntRange(0, 2).Draw(t, "prior") == 0
 	switch kind {
 	case "mutate":
 		d.Attack.Mut = refcbor.Mutation{Node: rapid.IntRange(0, 300).Draw(t, "node"), Op: "auto", Arg: int64(rapid.IntRange(-4000, 4000).Draw(t, "arg"))}
@@ -599,7 +614,7 @@ func TestC06(t *testing.T) {
 		}
 		return res
 	})
-	r.SetRule("attacks", "configuration × chain × TTL policy × requested TTL × one forgery of TO0.OwnerSign built by a manual owner from the CDDL: one structure-aware mutation anywhere (to0d incl. the embedded voucher, wait seconds, nonce; to1d payload, protected header, signature, hash), signer ∈ {earlier owner, manufacturer, device key, stranger, key of another kind}, OwnerSign replayed in a fresh session, zero-entry voucher, to1d taken from another device's registration, hash with other algorithm / wrong value / HMAC id, no preceding Hello, take-over of entry p (genuine hashes, names the stranger, signed by stranger/device/earlier owner/manufacturer/current owner, 0..2 further entries honestly built by the stranger, redirect signed by the stranger), rearranged entry lists (last or all entries grafted from another device's voucher with the same owners, duplicated last entry, swapped or dropped entries) correctly hashed and signed by the genuine owner. Oracle: SetRVBlob appears in the journal and type 23 is returned only if an independent reference accepts the bytes sent (≥1 entry, chain verifies, hash(to0d)=to1d hash, nonce issued in this session, to1d signed by the current owner key) and the policy admits; otherwise type 255 and nothing stored; TTL semantics as in controls. Non-trivial: every forged request and every non-default policy; distinct by descriptor.")
+	r.SetRule("attacks", "configuration × chain × TTL policy × requested TTL × {fresh server, GUID already registered by the genuine owner in an earlier session} × one forgery of TO0.OwnerSign built by a manual owner from the CDDL: one structure-aware mutation anywhere (to0d incl. the embedded voucher, wait seconds, nonce; to1d payload, protected header, signature, hash), signer ∈ {earlier owner, manufacturer, device key, stranger, key of another kind}, OwnerSign replayed in a fresh session, zero-entry voucher, to1d taken from another device's registration, hash with other algorithm / wrong value / HMAC id, no preceding Hello, take-over of entry p (genuine hashes, names the stranger, signed by stranger/device/earlier owner/manufacturer/current owner, 0..2 further entries honestly built by the stranger, redirect signed by the stranger), rearranged entry lists (last or all entries grafted from another device's voucher with the same owners, duplicated last entry, swapped or dropped entries) correctly hashed and signed by the genuine owner. Oracle: SetRVBlob appears in the journal and type 23 is returned only if an independent reference accepts the bytes sent (≥1 entry, chain verifies, hash(to0d)=to1d hash, nonce issued in this session, to1d signed by the current owner key) and the policy admits; otherwise type 255 and nothing stored; TTL semantics as in controls. Non-trivial: every forged request and every non-default policy; distinct by descriptor.")
 	ev.Rapid(r, "attacks", ev.N{Quick: 8000, Thorough: 200000}, genCase, evalCase)
 	ev.CheckWitness(r, "attacks", evalCase)
 }
